@@ -1,12 +1,15 @@
 import WindVerif.Drv.Common
 import WindVerif.Drv.Dll
 import WindVerif.Drv.Cache
+import WindVerif.Drv.Sorted
 open WindVerif.Drv
 
 def machines : List (String × Machine) := [
   ("dll", dllMachine),
   ("lru", lruMachine),
-  ("lfu", lfuMachine)
+  ("lfu", lfuMachine),
+  ("sset", ssetMachine),
+  ("smap", smapMachine)
 ]
 
 def main (args : List String) : IO UInt32 := do
